@@ -191,11 +191,11 @@ def validation_after(ctx: Ctx, fn: FuncInfo, sender_call: ast.Call, id_vn, rep: 
 
 
 def run(ctx: Ctx, rep: Report) -> None:
-    rep.rule("C07-R1", "the id placed in the request PDU and the id validated are one value (single clock read)", floor=4)
-    rep.rule("C07-R2", "validation of the response id is unavoidable in the sender-calling method; the validator is exact", floor=3)
-    rep.rule("C07-R3", "every network sender call is a pass-through closure or is followed by id validation", floor=3)
-    rep.rule("C07-R4", "community security models refuse a wrong version or community before returning the PDU; they are the models their message-processing model installs", floor=12)
-    rep.rule("C07-R5", "discovery: probe ids are one value and are validated before discovery data is built", floor=3)
+    rep.rule("C07-R1", "the id placed in the request PDU and the id validated are one value (single clock read)", floor=2)
+    rep.rule("C07-R2", "validation of the response id is unavoidable in the sender-calling method; the validator is exact", floor=2)
+    rep.rule("C07-R3", "every network sender call is a pass-through closure or is followed by id validation", floor=2)
+    rep.rule("C07-R4", "community security models refuse a wrong version or community before returning the PDU; they are the models their message-processing model installs", floor=9)
+    rep.rule("C07-R5", "discovery: probe ids are one value and are validated before discovery data is built", floor=2)
     rep.level = "proof"
     rep.assumptions += [
         "get_request_id (and any other call) may return a different value on every evaluation",
@@ -281,6 +281,21 @@ def run(ctx: Ctx, rep: Report) -> None:
         if passthrough and fn.parent is not None:
             rep.ok("C07-R3", site, text, "pass-through closure: returns the received bytes unprocessed to its caller")
             continue
+        if passthrough and fn != send:
+            # a pass-through helper method (Client._transmit): the duty to validate moves to every caller
+            bad = []
+            users = ctx.callers_of(fn)
+            for caller, ccall in users:
+                if caller == send:
+                    continue  # the seam: validated on its inlined view (C07-R2)
+                ccfg = ctx.cfg(caller)
+                vn = [cfg_node_of(ccfg, c) for c in calls_resolving_to(ctx, caller, *validators(ctx))]
+                vn = [n for n in vn if n is not None]
+                sn = cfg_node_of(ccfg, ccall)
+                if not (vn and sn is not None and ccfg.must_pass(sn, [ccfg.exit], vn)):
+                    bad.append(caller.qualname)
+            rep.check(bool(users) and not bad, "C07-R3", site, text, f"pass-through helper; callers that do not validate the response id: {bad}" if bad else "pass-through helper; every caller validates", key=f"{fn.key}|unvalidated-sender")
+            continue
         if fn == send:
             rep.ok("C07-R3", site, text, "validated (C07-R2)")
             continue
@@ -351,20 +366,22 @@ def check_community_model(ctx: Ctx, rep: Report, cls: ClassInfo, want_version: i
 
     # emitted constant
     emitted = None
-    for node in own_nodes(gen.node):
-        if isinstance(node, ast.Call) and ctx.r.call_resolves_to(gen, node, "x690.types:Sequence") and node.args and isinstance(node.args[0], (ast.List, ast.Tuple)):
-            elts = node.args[0].elts
-            if len(elts) == 3 and isinstance(elts[0], ast.Call) and ctx.r.call_resolves_to(gen, elts[0], "x690.types:Integer") and elts[0].args:
-                try:
-                    emitted = ctx.r.const(gen.module, elts[0].args[0])
-                except Exception:  # pylint: disable=broad-except
-                    emitted = None
+    from .ber import returned_sequence
+
+    items = returned_sequence(ctx, gen, cls)
+    if items is not None and len(items) == 3 and items[0][0] == "Integer":
+        try:
+            emitted = int(items[0][1])
+        except ValueError:
+            emitted = None
     site = proc.site()
     compared: List[object] = []
 
     def scenario(version_ok: bool, community_ok: bool):
         def classify(cmp: ast.Compare) -> Optional[bool]:
-            cmp = defs.expand(cmp)  # type: ignore[assignment]
+            cmp = ctx.xexpand(proc, cmp, depth=2, stop=list(field_of))  # type: ignore[assignment]
+            if not isinstance(cmp, ast.Compare) or len(cmp.ops) != 1:
+                return None
             left, right = cmp.left, cmp.comparators[0]
             # a community message is SEQUENCE { version, community, PDU }: three elements in every scenario
             for a, b, flip in ((left, right, False), (right, left, True)):
@@ -414,11 +431,16 @@ def check_community_model(ctx: Ctx, rep: Report, cls: ClassInfo, want_version: i
 
     cfg = ctx.cfg(proc)
     snmp_error = ctx.u.cls("puresnmp.exc:SnmpError")
+
+    def sim_expand(expr: ast.AST) -> ast.AST:
+        # boolean locals (is_v1 = version == 0) are looked through; the message fields keep their names
+        return defs.expand(expr, stop=list(field_of))
+
     for v_ok, c_ok, label in [(False, True, "wrong version"), (True, False, "wrong community"), (False, False, "both wrong")]:
-        outs = simulate(cfg, scenario(v_ok, c_ok))
+        outs = simulate(cfg, scenario(v_ok, c_ok), expand=sim_expand)
         ok = bool(outs) and all(o.kind == "raise" and raised_class(ctx, proc, o) is not None and ctx.r.is_subclass(raised_class(ctx, proc, o), snmp_error) for o in outs)
         rep.check(ok, rule, site, f"{cls.name}: a response with {label} is refused with SnmpError on every path", f"outcomes: {outs}", key=f"{proc.key}|{label.replace(' ', '-')}")
-    outs = simulate(cfg, scenario(True, True))
+    outs = simulate(cfg, scenario(True, True), expand=sim_expand)
     ret_ok = bool(outs) and all(o.kind == "return" and isinstance(o.stmt, ast.Return) and o.stmt.value is not None and field_index(o.stmt.value) == 2 for o in outs)
     rep.check(ret_ok, rule, site, f"{cls.name}: a matching response returns the PDU element of the message", f"outcomes: {outs}", key=f"{proc.key}|accept-matching")
     consts = [c for c in compared if c is not None]
@@ -481,18 +503,45 @@ def check_discovery(ctx: Ctx, rep: Report) -> None:
     header_cls = ctx.u.cls("puresnmp.adt:HeaderData")
     header_ids = []
     pdu_ids = []
-    for node in own_nodes(fn.node):
-        if isinstance(node, ast.Call):
-            if ctx.r.call_resolves_to(fn, node, header_cls.key):
+    pdu_base = ctx.u.cls("puresnmp.pdu:PDU")
+
+    def collect_ids(f: FuncInfo, to_outer, depth: int = 0) -> None:
+        """Message ids / request ids of the probe built in *f* (or in a builder helper it calls), in *fn*'s terms."""
+        for node in own_nodes(f.node):
+            if not isinstance(node, ast.Call):
+                continue
+            if ctx.r.call_resolves_to(f, node, header_cls.key):
                 bound = bind_call_args(node, dataclass_fields(header_cls), skip_self=False)
                 if "message_id" in bound:
-                    header_ids.append(bound["message_id"])
-            pid = None
-            for callee in ctx.r.callees(fn, node):
-                if isinstance(callee, ClassInfo) and ctx.r.is_subclass(callee, ctx.u.cls("puresnmp.pdu:PDU")):
-                    pid = pdu_request_id_expr(ctx, fn, node)
-            if pid is not None:
-                pdu_ids.append(pid)
+                    header_ids.append(to_outer(bound["message_id"]))
+                continue
+            callees = ctx.r.callees(f, node)
+            if any(isinstance(c, ClassInfo) and ctx.r.is_subclass(c, pdu_base) for c in callees):
+                pid = pdu_request_id_expr(ctx, f, node)
+                if pid is not None:
+                    pdu_ids.append(to_outer(pid))
+                continue
+            if depth < 2 and (depth > 0 or norm(defs.expand(node)) in payload_calls):
+                for callee in callees:
+                    if isinstance(callee, FuncInfo) and not callee.module.external and callee is not f and callee.name not in ("create",):
+                        passed = bind_call_args(node, callee.params, skip_self=callee.cls is not None)
+                        cdefs = ctx.defs(callee)
+
+                        def inner_to_outer(expr: ast.AST, passed=passed, cdefs=cdefs, outer=to_outer) -> ast.AST:
+                            exp = strip_casts(cdefs.expand(expr))
+                            if isinstance(exp, ast.Name) and exp.id in passed:
+                                return outer(passed[exp.id])
+                            return exp
+
+                        collect_ids(callee, inner_to_outer, depth + 1)
+
+    # builder helpers are followed only where their result flows into the datagram that is sent
+    payload_calls = set()
+    for arg in list(sends[0].args) + [k.value for k in sends[0].keywords]:
+        for x in ast.walk(defs.expand(arg)):
+            if isinstance(x, ast.Call):
+                payload_calls.add(norm(x))
+    collect_ids(fn, lambda e: e)
     vcalls = calls_resolving_to(ctx, fn, *validators(ctx))
     if not header_ids or not pdu_ids or not vcalls:
         rep.violated("C07-R5", site, "discovery validates the reply's message id against the probe's", f"header ids={len(header_ids)} pdu ids={len(pdu_ids)} validator calls={len(vcalls)}", key=f"{fn.key}|discovery-validation-missing")
